@@ -7,6 +7,11 @@ def ode(u, t):
     return [diff(u, t) + u]
 
 
+def zero_ode(u, t):
+    """an equation every function solves: the loss is exactly 0.0 from the first epoch on"""
+    return [u * 0]
+
+
 def ode2(u, v, t):
     return [diff(u, t) - v, diff(v, t) + u]
 
